@@ -2,7 +2,632 @@
 
 package c12
 
-import "github.com/consensys/gnark/std/math/emulated"
+import (
+	"fmt"
+	"math/big"
+	"math/rand/v2"
+	"sync/atomic"
 
-type advRunner interface{}
+	"github.com/consensys/gnark/backend/witness"
+	"github.com/consensys/gnark/constraint"
+	"github.com/consensys/gnark/constraint/solver"
+	"github.com/consensys/gnark/frontend"
+	"github.com/consensys/gnark/std/math/emulated"
+
+	"github.com/consensys/gnark/verifharness/internal/vcore"
+)
+
+// ---------------- the circuits the adversary attacks ----------------
+
+type advCircuit[T emulated.FieldParams] struct {
+	A, B, C, M emulated.Element[T]
+	E          emulated.Element[T] `gnark:",public"` // the claimed result is a public input
+	Bits       []frontend.Variable
+	Z          frontend.Variable
+	kind       string
+}
+
+var advKinds = []string{"mul", "mul-of", "asserteq", "asserteq-nr", "div", "inv", "sqrt", "canon", "iszero", "eval", "modmul", "modeq"}
+
+func (c *advCircuit[T]) Define(api frontend.API) error {
+	f, err := emulated.NewField[T](api)
+	if err != nil {
+		return err
+	}
+	switch c.kind {
+	case "mul":
+		f.AssertIsEqual(f.Mul(&c.A, &c.B), &c.E)
+	case "mul-of":
+		f.AssertIsEqual(f.Mul(f.Add(&c.A, &c.C), &c.B), &c.E)
+	case "asserteq":
+		f.AssertIsEqual(&c.A, &c.E)
+	case "asserteq-nr":
+		f.AssertIsEqual(f.MulNoReduce(&c.A, &c.B), &c.E)
+	case "div":
+		f.AssertIsEqual(f.Div(&c.A, &c.B), &c.E)
+	case "inv":
+		f.AssertIsEqual(f.Inverse(&c.A), &c.E)
+	case "sqrt":
+		f.AssertIsEqual(f.Sqrt(&c.A), &c.E)
+	case "canon":
+		bts := f.ToBitsCanonical(f.Add(&c.A, &c.B))
+		if len(bts) != len(c.Bits) {
+			return fmt.Errorf("harness: canonical bit count %d, expected %d", len(bts), len(c.Bits))
+		}
+		for i := range bts {
+			api.AssertIsEqual(bts[i], c.Bits[i])
+		}
+	case "iszero":
+		api.AssertIsEqual(f.IsZero(f.Sub(&c.A, &c.B)), c.Z)
+	case "eval":
+		r := f.Eval([][]*emulated.Element[T]{{&c.A, &c.B}, {&c.C}}, []int{1, 2})
+		f.AssertIsEqual(r, &c.E)
+	case "modmul":
+		f.ModAssertIsEqual(f.ModMul(&c.A, &c.B, &c.M), &c.E, &c.M)
+	case "modeq":
+		f.ModAssertIsEqual(&c.A, &c.E, &c.M)
+	default:
+		return fmt.Errorf("harness: unknown adversarial circuit %s", c.kind)
+	}
+	return nil
+}
+
+type advInput struct {
+	A, B, C, E, M *big.Int
+	ALimbs        []*big.Int // when set: raw limbs of A (width-violating witness)
+	Bits          *big.Int
+	Z             int
+}
+
+type advRunner interface {
+	Compile(field *big.Int, builder string, nbits int) (constraint.ConstraintSystem, error)
+	Witness(field *big.Int, in advInput, nbits int) (witness.Witness, error)
+}
+
 type advRun[T emulated.FieldParams] struct{ kind string }
+
+func (ar *advRun[T]) Compile(field *big.Int, builder string, nbits int) (ccs constraint.ConstraintSystem, err error) {
+	c := &advCircuit[T]{kind: ar.kind, Bits: make([]frontend.Variable, nbits)}
+	if pan, stack := vcore.Catch(func() { ccs, err = frontend.Compile(field, builderOf(builder), c) }); pan != nil {
+		return nil, fmt.Errorf("compile panic: %v\n%s", pan, stack)
+	}
+	return
+}
+
+func (ar *advRun[T]) Witness(field *big.Int, in advInput, nbits int) (witness.Witness, error) {
+	z := func(v *big.Int) *big.Int {
+		if v == nil {
+			return new(big.Int)
+		}
+		return v
+	}
+	w := &advCircuit[T]{A: rawElement[T](z(in.A)), B: rawElement[T](z(in.B)), C: rawElement[T](z(in.C)), E: rawElement[T](z(in.E)), M: rawElement[T](z(in.M)),
+		Bits: make([]frontend.Variable, nbits), Z: in.Z}
+	if in.ALimbs != nil {
+		w.A = rawElementLimbs[T](in.ALimbs)
+	}
+	for i := range w.Bits {
+		w.Bits[i] = z(in.Bits).Bit(i)
+	}
+	return frontend.NewWitness(w, field)
+}
+
+// ---------------- scenarios ----------------
+
+// family = the defence that is supposed to stop the lie (the violation signature).
+const (
+	famIdentity = "identity-not-enforced"        // random-point polynomial identity / hinted value check
+	famCarry    = "carry-range-not-enforced"     // identity holds modulo the native field only
+	famQuo      = "quotient-range-not-enforced"  // oversized quotient limb
+	famCanon    = "noncanonical-accepted"        // comparison with the modulus of canonical outputs
+	famWidth    = "witness-width-not-enforced"   // range check of witness limbs
+	famHonest   = "false-claim-with-honest-hints"
+)
+
+type scenario struct {
+	name     string
+	family   string
+	in       advInput
+	opts     func(st *lieStats) []solver.Option
+	mustFail bool   // the asserted statement is false
+	benign   bool   // lie leaves the statement true: either outcome is acceptable
+	why      string // the false claim, in words
+	needLie  bool   // scenario is void unless a lie was applied
+	fits     *atomic.Int64
+}
+
+type advCtx struct {
+	fc    *fieldCase
+	kind  string
+	q     *big.Int // native modulus
+	rng   *rand.Rand
+	nbits int
+}
+
+func (x *advCtx) cap2() *big.Int { return new(big.Int).Lsh(big.NewInt(1), uint(x.fc.mod.BitLen())) }
+
+func (x *advCtx) val() *big.Int {
+	p := x.fc.mod
+	switch x.rng.IntN(10) {
+	case 0:
+		return big.NewInt(0)
+	case 1:
+		return new(big.Int).Mod(big.NewInt(1), p)
+	case 2:
+		return new(big.Int).Sub(p, big.NewInt(1))
+	case 3:
+		v := new(big.Int).Sub(x.cap2(), big.NewInt(1)) // all-ones witness (>= p unless p = 2^k-1)
+		return v
+	case 4:
+		v := new(big.Int).Add(randBelow(x.rng, p), p)
+		if v.Cmp(x.cap2()) < 0 {
+			return v
+		}
+		return randBelow(x.rng, p)
+	default:
+		return randBelow(x.rng, p)
+	}
+}
+
+func (x *advCtx) nonzero() *big.Int {
+	for {
+		v := x.val()
+		if new(big.Int).Mod(v, x.fc.mod).Sign() != 0 {
+			return v
+		}
+	}
+}
+
+func modp(v, p *big.Int) *big.Int { return new(big.Int).Mod(v, p) }
+
+func override(h solver.Hint, f solver.Hint) solver.Option {
+	return solver.OverrideHint(solver.GetHintID(h), f)
+}
+
+// mulLieOpts builds the solver options for lies on mulHint (and polyMvHint when mv).
+func mulLieOpts(mv bool, lies ...*mulLie) func(st *lieStats) []solver.Option {
+	return func(st *lieStats) []solver.Option {
+		if mv {
+			return []solver.Option{override(hPolyMv, lyingMulHint(hPolyMv, true, lies, st)), override(hMul, lyingMulHint(hMul, false, nil, st))}
+		}
+		return []solver.Option{override(hMul, lyingMulHint(hMul, false, lies, st))}
+	}
+}
+
+// matchAB selects the mulHint call whose operands recompose to (a, b).
+func matchAB(a, b *big.Int) func(c *mulCall) bool {
+	return func(c *mulCall) bool { return !c.mv && c.A().Cmp(a) == 0 && c.Bv().Cmp(b) == 0 }
+}
+
+// matchCheckZero selects "a * 1 = 0 + k p" calls other than a given reduction operand.
+func matchOne(notA *big.Int) func(c *mulCall) bool {
+	return func(c *mulCall) bool {
+		return !c.mv && len(c.bl) == 1 && c.bl[0].Cmp(big.NewInt(1)) == 0 && (notA == nil || c.A().Cmp(notA) != 0)
+	}
+}
+
+func always(*mulCall) bool { return true }
+
+// scenarios for multiplication-like circuits where the attacked call computes
+// `trueR = lhs mod p` and the circuit asserts it equal to E.
+func (x *advCtx) mulScenarios(base advInput, trueR *big.Int, match func(*mulCall) bool, mv bool) []scenario {
+	p := x.fc.mod
+	var out []scenario
+	in := func(e *big.Int) advInput { b := base; b.E = modp(e, p); return b }
+	plus1 := new(big.Int).Add(trueR, big.NewInt(1))
+	out = append(out, scenario{name: "honest/true-claim", family: "", in: in(trueR)})
+	out = append(out, scenario{name: "honest/claim=r+1", family: famHonest, in: in(plus1), mustFail: true, why: "E = r+1, honest hints"})
+	add := func(name, fam string, e *big.Int, must, benign bool, build func(c *mulCall, q *big.Int) ([]*big.Int, []*big.Int, []*big.Int, bool), fits *atomic.Int64) {
+		out = append(out, scenario{name: name, family: fam, in: in(e), mustFail: must, benign: benign, needLie: true, fits: fits,
+			why:  fmt.Sprintf("claimed result %s, true result %s (mod %s)", modp(e, p), modp(trueR, p), p),
+			opts: mulLieOpts(mv, &mulLie{name: name, match: match, build: build})})
+	}
+	add("rem+1/quotient-kept/carry-honest", famIdentity, plus1, true, false, lieRemDelta(1, false), nil)
+	add("rem+1/quotient-kept/carry-solved", famIdentity, plus1, true, false, lieRemDelta(1, true), nil)
+	if trueR.Sign() > 0 {
+		add("rem-1/quotient-kept/carry-solved", famIdentity, new(big.Int).Sub(trueR, big.NewInt(1)), true, false, lieRemDelta(-1, true), nil)
+	}
+	add("rem+p/quotient-1/integer-consistent", "", trueR, false, true, lieRemPlusP, nil)
+	add("quotient+qnative/carry-solved", "", trueR, false, true, lieQuoShiftNative, nil)
+	for _, sgn := range []int{1, -1} {
+		e := new(big.Int).Add(trueR, new(big.Int).Mul(big.NewInt(int64(sgn)), x.q))
+		if modp(new(big.Int).Sub(e, trueR), p).Sign() == 0 {
+			continue
+		}
+		add(fmt.Sprintf("rem%+dqnative/quotient-kept/carry-solved", sgn), famCarry, e, true, false, lieRemShiftNative(sgn), nil)
+	}
+	targets := map[string]*big.Int{"r+1": plus1, "random": randBelow(x.rng, p)}
+	if trueR.Sign() != 0 {
+		targets["zero"] = new(big.Int)
+	}
+	for tn, t := range targets {
+		t := modp(t, p)
+		if t.Cmp(modp(trueR, p)) == 0 {
+			continue
+		}
+		tf := func(*mulCall) *big.Int { return t }
+		fits := new(atomic.Int64)
+		add("native-wrap("+tn+")", famCarry, t, true, false, lieNativeWrap(tf, false, fits), fits)
+		add("native-wrap-oversize-quotient("+tn+")", famQuo, t, true, false, lieNativeWrap(tf, true, nil), nil)
+	}
+	add("garbage-outputs", famIdentity, plus1, true, false, lieGarbage(x.rng.Uint64()), nil)
+	return out
+}
+
+// checkZero-only circuits: the statement "lhs == E (mod p)" is false.
+func (x *advCtx) zeroScenarios(base advInput, mv bool) []scenario {
+	var out []scenario
+	out = append(out, scenario{name: "honest/false-claim", family: famHonest, in: base, mustFail: true, why: "E differs from the left-hand side, honest hints"})
+	zero := func(*mulCall) *big.Int { return new(big.Int) }
+	add := func(name, fam string, build func(c *mulCall, q *big.Int) ([]*big.Int, []*big.Int, []*big.Int, bool), fits *atomic.Int64) {
+		out = append(out, scenario{name: name, family: fam, in: base, mustFail: true, needLie: true, fits: fits, why: "E differs from the left-hand side",
+			opts: mulLieOpts(mv, &mulLie{name: name, match: matchOne(nil), build: build})})
+	}
+	fits := new(atomic.Int64)
+	add("checkzero/native-wrap", famCarry, lieNativeWrap(zero, false, fits), fits)
+	add("checkzero/native-wrap-oversize-quotient", famQuo, lieNativeWrap(zero, true, nil), nil)
+	add("checkzero/quotient-kept/carry-solved", famIdentity, func(c *mulCall, q *big.Int) ([]*big.Int, []*big.Int, []*big.Int, bool) {
+		cc, _ := c.solvedCarries(c.k, c.r, q)
+		return c.k, c.r, cc, true
+	}, nil)
+	add("checkzero/quotient+1/carry-solved", famIdentity, func(c *mulCall, q *big.Int) ([]*big.Int, []*big.Int, []*big.Int, bool) {
+		kl := splitLimbs(new(big.Int).Add(c.K(), big.NewInt(1)), c.w, c.nbQ)
+		if kl == nil {
+			return nil, nil, nil, false
+		}
+		cc, _ := c.solvedCarries(kl, c.r, q)
+		return kl, c.r, cc, true
+	}, nil)
+	return out
+}
+
+// lyingValueHint makes DivHint / InverseHint / SqrtHint return the limbs of v.
+func lyingValueHint(v *big.Int, w uint, n int, st *lieStats) solver.Hint {
+	return func(q *big.Int, in, out []*big.Int) error {
+		st.intercepted.Add(1)
+		l := splitLimbs(v, w, n)
+		if l == nil || len(out) != n {
+			return fmt.Errorf("harness: lying value does not fit")
+		}
+		for i := range out {
+			out[i].Set(l[i])
+		}
+		st.applied.Add(1)
+		return nil
+	}
+}
+
+func (x *advCtx) scenarios() []scenario {
+	fc, p, q := x.fc, x.fc.mod, x.q
+	w, n := fc.w, fc.nbLimbs
+	switch x.kind {
+	case "mul":
+		a, b := x.val(), x.val()
+		base := advInput{A: a, B: b}
+		out := x.mulScenarios(base, modp(new(big.Int).Mul(a, b), p), matchAB(a, b), false)
+		// width-violating witnesses, true arithmetic claim
+		for _, which := range []string{"low-limb=2^w", "top-limb=2^topwidth"} {
+			l := splitLimbs(randBelow(x.rng, p), w, n)
+			if which == "low-limb=2^w" {
+				if n < 2 && fc.topWidth() == w {
+					continue
+				}
+				l[0] = new(big.Int).Lsh(big.NewInt(1), w)
+				if n == 1 { // single limb: same as top limb
+					continue
+				}
+			} else {
+				l[n-1] = new(big.Int).Lsh(big.NewInt(1), fc.topWidth())
+			}
+			av := joinLimbs(l, w)
+			in := advInput{ALimbs: l, B: b, E: modp(new(big.Int).Mul(av, b), p)}
+			out = append(out, scenario{name: "witness/" + which, family: famWidth, in: in, mustFail: true, why: "witness limb wider than the field parameters allow"})
+		}
+		return out
+	case "mul-of":
+		a, b, c := x.val(), x.val(), x.val()
+		s := new(big.Int).Add(a, c)
+		return x.mulScenarios(advInput{A: a, B: b, C: c}, modp(new(big.Int).Mul(s, b), p), func(mc *mulCall) bool { return !mc.mv && len(mc.bl) == n && mc.Bv().Cmp(b) == 0 && len(mc.al) == n && mc.A().Cmp(s) == 0 }, false)
+	case "eval":
+		a, b, c := x.val(), x.val(), x.val()
+		r := new(big.Int).Mul(a, b)
+		r.Add(r, new(big.Int).Lsh(c, 1))
+		return x.mulScenarios(advInput{A: a, B: b, C: c}, modp(r, p), func(mc *mulCall) bool { return mc.mv }, true)
+	case "asserteq":
+		a := x.val()
+		d := big.NewInt(1)
+		if x.rng.IntN(2) == 0 {
+			d = randBelow(x.rng, p)
+		}
+		e := modp(new(big.Int).Add(a, d), p)
+		if e.Cmp(modp(a, p)) == 0 {
+			e = modp(new(big.Int).Add(a, big.NewInt(1)), p)
+		}
+		if e.Cmp(modp(a, p)) == 0 {
+			return nil
+		}
+		return x.zeroScenarios(advInput{A: a, E: e}, false)
+	case "asserteq-nr":
+		a, b := x.val(), x.val()
+		r := modp(new(big.Int).Mul(a, b), p)
+		e := modp(new(big.Int).Add(r, big.NewInt(int64(1+x.rng.IntN(3)))), p)
+		if e.Cmp(r) == 0 {
+			return nil
+		}
+		out := x.zeroScenarios(advInput{A: a, B: b, E: e}, false)
+		out = append(out, scenario{name: "honest/true-claim", in: advInput{A: a, B: b, E: r}})
+		return out
+	case "div", "inv", "sqrt":
+		if !fc.prime {
+			return nil
+		}
+		var a, b, tr *big.Int
+		var hint solver.Hint
+		switch x.kind {
+		case "div":
+			a, b = x.val(), x.nonzero()
+			tr = modp(new(big.Int).Mul(a, new(big.Int).ModInverse(modp(b, p), p)), p)
+			hint = hDiv
+		case "inv":
+			a = x.nonzero()
+			tr = new(big.Int).ModInverse(modp(a, p), p)
+			hint = hInv
+		case "sqrt":
+			s := x.val()
+			a = modp(new(big.Int).Mul(s, s), p)
+			tr = new(big.Int).ModSqrt(a, p)
+			if tr == nil {
+				return nil
+			}
+			hint = hSqrt
+		}
+		base := advInput{A: a, B: b}
+		var out []scenario
+		with := func(e *big.Int) advInput { bb := base; bb.E = modp(e, p); return bb }
+		out = append(out, scenario{name: "honest/true-claim", in: with(tr)})
+		out = append(out, scenario{name: "honest/claim+1", family: famHonest, in: with(new(big.Int).Add(tr, big.NewInt(1))), mustFail: true, why: "E = result+1, honest hints"})
+		wrongs := map[string]*big.Int{"value+1": modp(new(big.Int).Add(tr, big.NewInt(1)), p), "zero": new(big.Int), "random": randBelow(x.rng, p)}
+		// the check the library makes after the hint: mul(v, other) == expect
+		other, expect := b, a // div: v*b == a
+		if x.kind == "inv" {
+			other, expect = a, big.NewInt(1)
+		}
+		for wn, v := range wrongs {
+			v := v
+			if v.Cmp(tr) == 0 || (x.kind == "sqrt" && modp(new(big.Int).Mul(v, v), p).Cmp(modp(a, p)) == 0) {
+				continue
+			}
+			why := fmt.Sprintf("%s hint returns %s, true result %s", x.kind, v, tr)
+			out = append(out, scenario{name: "value-hint=" + wn + "/mul-honest", family: famIdentity, in: with(v), mustFail: true, needLie: true, why: why,
+				opts: func(st *lieStats) []solver.Option { return []solver.Option{override(hint, lyingValueHint(v, w, n, st))} }})
+			m := matchAB(v, other)
+			if x.kind == "sqrt" {
+				m = matchAB(v, v)
+			}
+			tgt := modp(expect, p)
+			for _, over := range []bool{false, true} {
+				over := over
+				fam, nm := famCarry, "value-hint="+wn+"/mul-native-wrap"
+				var fits *atomic.Int64
+				if over {
+					fam, nm = famQuo, nm+"-oversize-quotient"
+				} else {
+					fits = new(atomic.Int64)
+				}
+				out = append(out, scenario{name: nm, family: fam, in: with(v), mustFail: true, needLie: true, why: why, fits: fits,
+					opts: func(st *lieStats) []solver.Option {
+						return []solver.Option{override(hint, lyingValueHint(v, w, n, st)),
+							override(hMul, lyingMulHint(hMul, false, []*mulLie{{name: nm, match: m, build: lieNativeWrap(func(*mulCall) *big.Int { return tgt }, over, fits)}}, st))}
+					}})
+			}
+		}
+		// benign lies: value + p (still congruent), the other square root
+		if vp := new(big.Int).Add(tr, p); vp.Cmp(x.cap2()) < 0 {
+			out = append(out, scenario{name: "value-hint=value+p", in: with(tr), benign: true, needLie: true,
+				opts: func(st *lieStats) []solver.Option { return []solver.Option{override(hint, lyingValueHint(vp, w, n, st))} }})
+		}
+		if x.kind == "sqrt" && tr.Sign() != 0 {
+			o := new(big.Int).Sub(p, tr)
+			out = append(out, scenario{name: "value-hint=other-root(claim=other root)", in: with(o), benign: true, needLie: true,
+				opts: func(st *lieStats) []solver.Option { return []solver.Option{override(hint, lyingValueHint(o, w, n, st))} }})
+			out = append(out, scenario{name: "value-hint=other-root(claim=first root)", family: famIdentity, in: with(tr), mustFail: o.Cmp(tr) != 0, needLie: true, why: "circuit output is the other root, E claims the first",
+				opts: func(st *lieStats) []solver.Option { return []solver.Option{override(hint, lyingValueHint(o, w, n, st))} }})
+		}
+		return out
+	case "canon":
+		a, b := x.val(), x.val()
+		switch x.rng.IntN(4) {
+		case 0: // sum == p exactly (residue 0)
+			a = randBelow(x.rng, p)
+			b = new(big.Int).Sub(p, a)
+		case 1: // sum == p-1
+			a = randBelow(x.rng, p)
+			b = modp(new(big.Int).Sub(new(big.Int).Sub(p, big.NewInt(1)), a), p)
+		}
+		s := new(big.Int).Add(a, b)
+		r := modp(s, p)
+		base := advInput{A: a, B: b}
+		with := func(bits *big.Int) advInput { bb := base; bb.Bits = bits; return bb }
+		mask := new(big.Int).Sub(new(big.Int).Lsh(big.NewInt(1), uint(x.nbits)), big.NewInt(1))
+		var out []scenario
+		out = append(out, scenario{name: "honest/canonical-bits", in: with(r)})
+		wrongBits := new(big.Int).Xor(r, big.NewInt(1))
+		out = append(out, scenario{name: "honest/claim-bit0-flipped", family: famHonest, in: with(wrongBits), mustFail: true, why: "bit 0 flipped, honest hints"})
+		m := func(c *mulCall) bool { return !c.mv && c.A().Cmp(s) == 0 && len(c.bl) == 1 }
+		if rp := new(big.Int).Add(r, p); rp.Cmp(x.cap2()) < 0 && new(big.Int).And(rp, mask).Cmp(rp) == 0 {
+			out = append(out, scenario{name: "reduce-hint=r+p/integer-consistent", family: famCanon, in: with(rp), mustFail: true, needLie: true,
+				why:  fmt.Sprintf("bits of %s = r+p claimed as canonical bits of residue %s", rp, r),
+				opts: mulLieOpts(false, &mulLie{name: "r+p", match: m, build: lieRemPlusP})})
+		}
+		t := modp(new(big.Int).Add(r, big.NewInt(1)), p)
+		for _, over := range []bool{false, true} {
+			fam, nm := famCarry, "reduce-hint=native-wrap(r+1)"
+			var fits *atomic.Int64
+			if over {
+				fam, nm = famQuo, nm+"-oversize-quotient"
+			} else {
+				fits = new(atomic.Int64)
+			}
+			out = append(out, scenario{name: nm, family: fam, in: with(t), mustFail: true, needLie: true, fits: fits, why: fmt.Sprintf("bits of %s claimed, residue is %s", t, r),
+				opts: mulLieOpts(false, &mulLie{name: nm, match: m, build: lieNativeWrap(func(*mulCall) *big.Int { return t }, over, fits)})})
+		}
+		return out
+	case "iszero":
+		a, b := x.val(), x.val()
+		equal := x.rng.IntN(2) == 0
+		if equal {
+			b = new(big.Int).Set(a)
+			if t := new(big.Int).Add(modp(a, p), p); x.rng.IntN(2) == 0 && t.Cmp(x.cap2()) < 0 {
+				a, b = modp(a, p), t
+			}
+		}
+		isz := 0
+		if modp(new(big.Int).Sub(a, b), p).Sign() == 0 {
+			isz = 1
+		}
+		base := advInput{A: a, B: b}
+		with := func(z int) advInput { bb := base; bb.Z = z; return bb }
+		var out []scenario
+		out = append(out, scenario{name: "honest/true-claim", in: with(isz)})
+		out = append(out, scenario{name: "honest/false-claim", family: famHonest, in: with(1 - isz), mustFail: true, why: "IsZero output negated, honest hints"})
+		m := func(c *mulCall) bool { return !c.mv && len(c.bl) == 1 }
+		var tgts map[string]*big.Int
+		if isz == 0 {
+			tgts = map[string]*big.Int{"0": new(big.Int)}
+			if p.Cmp(x.cap2()) < 0 {
+				tgts["p"] = new(big.Int).Set(p)
+			}
+		} else {
+			tgts = map[string]*big.Int{"1": big.NewInt(1), "p-1": new(big.Int).Sub(p, big.NewInt(1))}
+		}
+		for tn, t := range tgts {
+			t := t
+			for _, over := range []bool{false, true} {
+				fam, nm := famCarry, "reduce-hint=native-wrap("+tn+")"
+				var fits *atomic.Int64
+				if over {
+					fam, nm = famQuo, nm+"-oversize-quotient"
+				} else {
+					fits = new(atomic.Int64)
+				}
+				out = append(out, scenario{name: nm, family: fam, in: with(1 - isz), mustFail: true, needLie: true, fits: fits, why: fmt.Sprintf("IsZero(%s - %s) claimed %d", a, b, 1-isz),
+					opts: mulLieOpts(false, &mulLie{name: nm, match: m, build: lieNativeWrap(func(*mulCall) *big.Int { return t }, over, fits)})})
+			}
+			out = append(out, scenario{name: "reduce-hint=" + tn + "/quotient-kept/carry-solved", family: famIdentity, in: with(1 - isz), mustFail: true, needLie: true, why: "reduction replaced, quotient kept",
+				opts: mulLieOpts(false, &mulLie{name: "x", match: m, build: func(c *mulCall, q *big.Int) ([]*big.Int, []*big.Int, []*big.Int, bool) {
+					rl := splitLimbs(t, c.w, c.nbLimbs)
+					cc, _ := c.solvedCarries(c.k, rl, q)
+					return c.k, rl, cc, true
+				}})})
+		}
+		return out
+	case "modmul", "modeq":
+		if !fc.varMod {
+			return nil
+		}
+		var mm *big.Int
+		switch x.rng.IntN(3) {
+		case 0:
+			mm = big.NewInt(4294967311)
+		case 1:
+			mm = randBits(x.rng, 100+x.rng.IntN(fc.mod.BitLen()/2-100))
+			mm.SetBit(mm, 0, 1)
+		default:
+			mm = randBits(x.rng, 8+x.rng.IntN(50))
+			mm.SetBit(mm, 0, 1)
+		}
+		if mm.Cmp(big.NewInt(3)) < 0 || new(big.Int).GCD(nil, nil, mm, q).Cmp(big.NewInt(1)) != 0 {
+			mm = big.NewInt(4294967311)
+		}
+		a, b := randBelow(x.rng, mm), randBelow(x.rng, mm)
+		if x.kind == "modmul" {
+			r := modp(new(big.Int).Mul(a, b), mm)
+			base := advInput{A: a, B: b, M: mm}
+			with := func(e *big.Int) advInput { bb := base; bb.E = modp(e, mm); return bb }
+			wrong := modp(new(big.Int).Add(r, big.NewInt(1)), mm)
+			var out []scenario
+			out = append(out, scenario{name: "honest/true-claim", in: with(r)})
+			out = append(out, scenario{name: "honest/claim=r+1", family: famHonest, in: with(wrong), mustFail: true, why: "E = r+1 modulo the variable modulus"})
+			m := matchAB(a, b)
+			for _, over := range []bool{false, true} {
+				fam, nm := famCarry, "modmul/native-wrap(r+1)"
+				var fits *atomic.Int64
+				if over {
+					fam, nm = famQuo, nm+"-oversize-quotient"
+				} else {
+					fits = new(atomic.Int64)
+				}
+				out = append(out, scenario{name: nm, family: fam, in: with(wrong), mustFail: true, needLie: true, fits: fits, why: fmt.Sprintf("a*b mod m = %s, claimed %s", r, wrong),
+					opts: mulLieOpts(false, &mulLie{name: nm, match: m, build: lieNativeWrap(func(*mulCall) *big.Int { return wrong }, over, fits)})})
+			}
+			out = append(out, scenario{name: "modmul/rem+1/quotient-kept/carry-solved", family: famIdentity, in: with(wrong), mustFail: true, needLie: true, why: "remainder+1",
+				opts: mulLieOpts(false, &mulLie{name: "x", match: m, build: lieRemDelta(1, true)})})
+			return out
+		}
+		// modeq: ModAssertIsEqual(A, E, M) with A != E mod M
+		d := int64(1 + x.rng.IntN(5))
+		e := modp(new(big.Int).Add(a, big.NewInt(d)), mm)
+		if e.Cmp(a) == 0 {
+			return nil
+		}
+		base := advInput{A: a, E: e, M: mm}
+		var out []scenario
+		out = append(out, scenario{name: "honest/true-claim", in: advInput{A: a, E: a, M: mm}})
+		out = append(out, scenario{name: "honest/false-claim", family: famHonest, in: base, mustFail: true, why: "A != E modulo the variable modulus"})
+		// diff = padding + E - A; the final checkZero(diff, M) is attacked directly
+		out = append(out, x.zeroScenariosNamed(base, "modeq/")...)
+		// lying subtraction padding: padding' = padding + (A - E), so that diff == padding (== 0 mod M for an honest padding);
+		// the padding's own zero check is then attacked with the native wrap.
+		delta := new(big.Int).Sub(a, e)
+		for _, wrap := range []string{"", "native-wrap", "native-wrap-oversize-quotient"} {
+			wrap := wrap
+			fam := famIdentity
+			var fits *atomic.Int64
+			switch wrap {
+			case "native-wrap":
+				fam = famCarry
+				fits = new(atomic.Int64)
+			case "native-wrap-oversize-quotient":
+				fam = famQuo
+			}
+			nm := "subpadding+(A-E)"
+			if wrap != "" {
+				nm += "/padding-check-" + wrap
+			}
+			out = append(out, scenario{name: nm, family: fam, in: base, mustFail: true, needLie: true, fits: fits, why: "subtraction padding is not a multiple of the modulus",
+				opts: func(st *lieStats) []solver.Option {
+					var padVal atomic.Pointer[big.Int]
+					o := []solver.Option{override(hSubPad, func(q *big.Int, in, outp []*big.Int) error {
+						if err := hSubPad(q, in, outp); err != nil {
+							return err
+						}
+						st.intercepted.Add(1)
+						outp[0].Add(outp[0], delta)
+						if outp[0].Sign() < 0 {
+							return fmt.Errorf("harness: negative padding limb")
+						}
+						st.applied.Add(1)
+						padVal.Store(joinLimbs(outp, uint(in[1].Uint64())))
+						return nil
+					})}
+					if wrap != "" {
+						o = append(o, override(hMul, lyingMulHint(hMul, false, []*mulLie{{name: nm, match: func(c *mulCall) bool {
+							pv := padVal.Load()
+							return pv != nil && len(c.bl) == 1 && c.A().Cmp(pv) == 0
+						}, build: lieNativeWrap(func(*mulCall) *big.Int { return new(big.Int) }, wrap != "native-wrap", fits)}}, st)))
+					}
+					return o
+				}})
+		}
+		return out
+	}
+	return nil
+}
+
+func (x *advCtx) zeroScenariosNamed(base advInput, prefix string) []scenario {
+	s := x.zeroScenarios(base, false)
+	for i := range s {
+		s[i].name = prefix + s[i].name
+	}
+	return s
+}
